@@ -18,6 +18,15 @@ import (
 // Payload lengths 0..max with the boundaries max-29..max, random contents, both source forms,
 // max in {64, 1500, 9000}, targets anywhere in 127/8 (so the packet can be captured locally).
 // VERIF_MIRROR_SWEEP=<max>/<parts>/<part> emits every length l in 0..max with l%parts == part instead.
+//
+// One line in twenty is a STREAM through one worker or through the real dispatcher, on a path that refuses
+// part of it (hook: vflow/verif_mirrorseq_test.go, in a private network namespace):
+//
+//	mirrorseq <ipfix|sflow> <dst dotted quad | ::1> <port> <max> <mtu> <w|d<k>> <count>x<src-hex>:<len>:<seed>,...
+//
+// lengths around mtu-28 (the largest the path carries), around 65507 with max 65535, exporters of both
+// families behind the dispatcher, floods of 999..2100 datagrams of the family no worker serves (the
+// dispatcher's queues hold 1000), 0..5 mirror workers.
 func init() {
 	kinds["mirror"] = &kind{gen: genMirror}
 }
@@ -78,6 +87,119 @@ func mirrorLine(r *rand.Rand, w *bufio.Writer, max, l int) {
 	fmt.Fprintf(w, "mirror %s %s %s %d %d %s\n", proto, mirrorSrc(r, r.Intn(2) == 0), mirrorDst(r), port, max, ph)
 }
 
+func mirrorSrc6(r *rand.Rand) string {
+	a := make([]byte, 16)
+	r.Read(a)
+	a[0] = []byte{0x20, 0xfe, 0xfd, 0x26}[r.Intn(4)] // never ::/8 (IPv4-mapped, loopback)
+	if r.Intn(3) == 0 {
+		a = []byte{0x20, 0x01, 0x0d, 0xb8, 0, 0, 0, 0, 0, 0, 0, 0, 0, 0, 0, byte(1 + r.Intn(200))}
+	}
+	return hex.EncodeToString(a)
+}
+
+func mirrorSeqLine(r *rand.Rand, w *bufio.Writer) {
+	proto := "ipfix"
+	if r.Intn(2) == 0 {
+		proto = "sflow"
+	}
+	max := []int{64, 1500, 1500, 1500, 1500, 1500, 9000, 9000, 1500, 64}[r.Intn(10)]
+	mtu := []int{68, 576, 1280, 1500, 1500, 1500, 9000, 65536}[r.Intn(8)]
+	if r.Intn(40) == 0 {
+		max, mtu = 65535, 65536 // 28+len > 65535: no IPv4 datagram can hold it
+	}
+	mode := "w"
+	workers := 1
+	switch k := r.Intn(20); {
+	case k < 8:
+	case k < 13:
+		mode = "d1"
+	case k < 19:
+		workers = 2 + r.Intn(4)
+		mode = fmt.Sprintf("d%d", workers)
+	default:
+		workers = 0
+		mode = "d0"
+	}
+	disp := mode != "w"
+	dst := mirrorDst(r)
+	v6target := disp && workers > 0 && r.Intn(12) == 0
+	if v6target {
+		dst = "::1"
+	}
+	port := 1 + r.Intn(65535)
+	// the largest payload the path carries
+	fit := mtu - 28
+	if fit > 65507 {
+		fit = 65507
+	}
+	length := func() int {
+		var l int
+		switch k := r.Intn(10); {
+		case k < 4:
+			l = fit - 2 + r.Intn(5) // fit-2 .. fit+2
+		case k < 5:
+			l = r.Intn(4)
+		case k < 7:
+			l = fit + 1 + r.Intn(60)
+		default:
+			l = r.Intn(max + 1)
+			if max > 2000 && r.Intn(3) != 0 {
+				l = r.Intn(2000)
+			}
+		}
+		if l > max {
+			l = max
+		}
+		if l < 0 {
+			l = 0
+		}
+		return l
+	}
+	small := func() int {
+		m := fit
+		if m > max {
+			m = max
+		}
+		if m > 40 {
+			m = 40
+		}
+		return r.Intn(m + 1)
+	}
+	var items []string
+	n := 2 + r.Intn(9)
+	if workers == 0 {
+		n = 1 + r.Intn(3)
+	}
+	for i := 0; i < n; i++ {
+		cnt := 1
+		if r.Intn(6) == 0 {
+			cnt = 2 + r.Intn(3)
+		}
+		src := mirrorSrc(r, r.Intn(2) == 0)
+		if disp && !v6target && r.Intn(4) == 0 {
+			src = mirrorSrc6(r)
+		}
+		items = append(items, fmt.Sprintf("%dx%s:%d:%d", cnt, src, length(), r.Intn(256)))
+	}
+	if disp && workers > 0 && (v6target || r.Intn(3) == 0) {
+		// a flood from the family no worker serves, somewhere before the end
+		cnt := []int{999, 1000, 1001, 1002, 1500, 2100}[r.Intn(6)]
+		src := mirrorSrc6(r)
+		if v6target {
+			src = mirrorSrc(r, true)
+			cnt = []int{1001, 1500, 2100}[r.Intn(3)]
+		}
+		at := r.Intn(len(items))
+		fl := fmt.Sprintf("%dx%s:%d:%d", cnt, src, small(), r.Intn(256))
+		items = append(items[:at], append([]string{fl}, items[at:]...)...)
+	}
+	if r.Intn(5) != 0 {
+		// the stream ends with a datagram the path does carry
+		items = append(items, fmt.Sprintf("1x%s:%d:%d", mirrorSrc(r, r.Intn(2) == 0), small(), r.Intn(256)))
+	}
+	fmt.Fprintf(w, "mirrorseq %s %s %d %d %d %s %s\n", proto, dst, port, max, mtu, mode, strings.Join(items, ","))
+}
+
 func genMirror(r *rand.Rand, n int, w *bufio.Writer) {
 	if s := os.Getenv("VERIF_MIRROR_SWEEP"); s != "" {
 		f := strings.Split(s, "/")
@@ -92,6 +214,10 @@ func genMirror(r *rand.Rand, n int, w *bufio.Writer) {
 		return
 	}
 	for i := 0; i < n; i++ {
+		if r.Intn(20) == 0 {
+			mirrorSeqLine(r, w)
+			continue
+		}
 		max := 64
 		switch k := r.Intn(10); {
 		case k < 4:
